@@ -909,9 +909,33 @@ func (c *Ctx) sessionSetupRefusesNothing() {
 		}
 		var bad []string
 		var judge func(v ssa.Value, d int) bool
+		// a private helper of the session (storeConnect, willFromConnect): its returns are judged like the function's own
+		helperOK := func(call *ssa.Call, d int) bool {
+			h := call.Common().StaticCallee()
+			if h == nil || h.Blocks == nil || recvNamed(h) != "Session" || (h.Object() != nil && h.Object().Exported()) || d > 3 {
+				return false
+			}
+			for _, ret := range ir.Returns(h) {
+				if len(ret.Results) == 0 {
+					continue
+				}
+				if !judge(ir.ReturnOperand(ret, len(ret.Results)-1), d+2) {
+					return false
+				}
+			}
+			return true
+		}
 		judge = func(v ssa.Value, d int) bool {
 			if d > 6 {
 				return false
+			}
+			if call, ok := v.(*ssa.Call); ok && helperOK(call, d) {
+				return true
+			}
+			if ex, ok := v.(*ssa.Extract); ok {
+				if call, ok := ex.Tuple.(*ssa.Call); ok && helperOK(call, d) {
+					return true
+				}
 			}
 			switch x := v.(type) {
 			case *ssa.Const:
@@ -963,14 +987,8 @@ func (c *Ctx) sessionSetupRefusesNothing() {
 						break
 					}
 					if iff, ok := id.Instrs[len(id.Instrs)-1].(*ssa.If); ok {
-						cond := ir.SeeThrough(iff.Cond)
-						if u, isU := cond.(*ssa.UnOp); isU && u.Op == token.NOT {
-							cond = ir.SeeThrough(u.X)
-						}
-						if ld, isLd := cond.(*ssa.UnOp); isLd && ld.Op == token.MUL {
-							if p := ir.PathOf(ld.X); len(p.Fields) > 0 && p.Fields[len(p.Fields)-1] == "initted" {
-								return true
-							}
+						if testsField(iff.Cond, "initted", 0) {
+							return true
 						}
 					}
 				}
@@ -1284,4 +1302,31 @@ func (c *Ctx) condLocksExclusive() {
 	}
 	c.R.Count("condition variables created", n)
 	c.R.Floor("condition variables created (pcond, ccond)", n, 2)
+}
+
+// testsField: the condition is a load of the named field, possibly negated or compared with a boolean constant.
+func testsField(cond ssa.Value, field string, d int) bool {
+	if d > 4 {
+		return false
+	}
+	switch x := ir.SeeThrough(cond).(type) {
+	case *ssa.UnOp:
+		if x.Op == token.NOT {
+			return testsField(x.X, field, d+1)
+		}
+		if x.Op == token.MUL {
+			p := ir.PathOf(x.X)
+			return len(p.Fields) > 0 && p.Fields[len(p.Fields)-1] == field
+		}
+	case *ssa.BinOp:
+		if x.Op == token.EQL || x.Op == token.NEQ {
+			if _, isK := x.Y.(*ssa.Const); isK {
+				return testsField(x.X, field, d+1)
+			}
+			if _, isK := x.X.(*ssa.Const); isK {
+				return testsField(x.Y, field, d+1)
+			}
+		}
+	}
+	return false
 }
